@@ -15,10 +15,10 @@ EXTENDS EvmValue
 
 TraceEOAs == {"E1", "E2", "E3"}
 TraceContracts == {"K1", "K2", "K3"}
-TraceAll == TraceEOAs \cup TraceContracts \cup {"Z", "F", "N", "Q"}
+TraceAll == TraceEOAs \cup TraceContracts \cup {"Z", "F", "N", "Q", "P"}
 ZeroBal == [a \in TraceAll |-> 0]
 NoLock == [a \in TraceAll |-> "none"]
-AllTxKinds == {"call", "create", "sdata", "kquai", "xsend", "inbound"}
+AllTxKinds == {"call", "create", "sdata", "kquai", "xsend", "inbound", "pbad"}
 AllOpKinds == {"ETX", "CONVERT", "XCALL", "UNWRAP", "CLAIM"}
 AllFrameKinds == {"call", "delegate", "callcode", "static", "create", "create2"}
 Anything == {}
@@ -49,7 +49,7 @@ ViewEq(a, b) == a.k = b.k /\ a.to = b.to /\ a.val = b.val /\ a.idx = b.idx
 RecConform ==
     /\ SpecRec.a = Ev.a /\ SpecRec.x = Ev.x /\ SpecRec.y = Ev.y
     /\ (Ev.a \in {"txbegin", "etxstage", "txend", "sdata", "kquai"} => SpecRec.res = Ev.res)
-    /\ (Ev.a \in {"top", "call", "create", "dcall", "ccall", "scall", "create2"} => SpecRec.c.enter = Ev.c.enter)
+    /\ (Ev.a \in {"top", "call", "create", "dcall", "ccall", "scall", "create2", "pcall"} => SpecRec.c.enter = Ev.c.enter)
     /\ (Ev.a \in AllOpKinds =>
            IF SpecRec.last.k = "-" THEN "last" \notin DOMAIN Ev
            ELSE "last" \in DOMAIN Ev /\ ViewEq(SpecRec.last, Ev.last))
@@ -88,13 +88,14 @@ TraceNext ==
     \/ TraceReset
     \/ Is("txbegin")  /\ Consume(TxBegin(Ev.x, Ev.c.k, Ev.y, Ev.v, Ev.g, Ev.p, Ev.c.rg, Ev.c.pf))
     \/ Is("etxstage") /\ Consume(EtxStage(Ev.y, Ev.v, Ev.c.glc, Ev.c.rg, Ev.c.pf))
-    \/ Is("top")      /\ Consume(IF Ev.c.k = "create" THEN TopCreate ELSE TopCall)
+    \/ Is("top")      /\ Consume(IF Ev.c.k = "create" THEN TopCreate ELSE IF Ev.c.k = "pbad" THEN TopPCallFail ELSE TopCall)
     \/ Is("sdata")    /\ Consume(TxSelfDestructByData(Ev.y, Ev.g))
     \/ Is("kquai")    /\ Consume(TxKQuaiControl(Ev.c.k, Ev.g))
     \/ Is("call")     /\ Consume(Call(Ev.y, Ev.v))
     \/ Is("create")   /\ Consume(IF Ev.c.enter \/ bal[Cur.self] < Ev.v THEN Create(Ev.v) ELSE Create_NoAddress(Ev.v))
     \* the other frame kinds.  A state-modifying instruction inside a read-only context arrives as the "fail" of its
     \* frame (write protection); if the implementation executed it instead, its event is no enabled action here
+    \/ Is("pcall")    /\ Consume(PCall(Ev.v, Ev.c.oc))
     \/ Is("dcall")    /\ Consume(DelegateCall(Ev.y))
     \/ Is("ccall")    /\ Consume(CallCode(Ev.y, Ev.v))
     \/ Is("scall")    /\ Consume(StaticCall(Ev.y))
